@@ -56,6 +56,19 @@ func Corpus() []RunDesc {
 		// C01-d: 1's shares message omits 5, 5's commitments message is too short
 		{ID: "corpus-C01d-omit-disqualified", N: 5, T: 2, Corrupt: []int{1, 5}, Ops: distinctOps(5), OrderSeed: 23, Shuffle: true,
 			Attacks: []Attack{{Name: "sh-omit", Phase: 3, By: 1, Target: 5}, {Name: "cm-short", Phase: 3, By: 5}}},
+		// one phase's messages withheld, the seat talks again afterwards: pins every MarkInactiveMembers call
+		{ID: "corpus-drop-phase1", N: 4, T: 1, Corrupt: []int{3}, Ops: distinctOps(4), OrderSeed: 31, Shuffle: true,
+			Attacks: []Attack{{Name: "drop", Phase: 1, By: 3}}},
+		{ID: "corpus-drop-phase3", N: 4, T: 1, Corrupt: []int{1}, Ops: distinctOps(4), OrderSeed: 32, Shuffle: true,
+			Attacks: []Attack{{Name: "drop", Phase: 3, By: 1}}},
+		{ID: "corpus-drop-phase4", N: 4, T: 1, Corrupt: []int{2}, Ops: distinctOps(4), OrderSeed: 33, Shuffle: true,
+			Attacks: []Attack{{Name: "drop", Phase: 4, By: 2}}},
+		{ID: "corpus-drop-phase7", N: 4, T: 1, Corrupt: []int{4}, Ops: distinctOps(4), OrderSeed: 34, Shuffle: true,
+			Attacks: []Attack{{Name: "drop", Phase: 7, By: 4}}},
+		{ID: "corpus-drop-phase8", N: 4, T: 1, Corrupt: []int{3}, Ops: distinctOps(4), OrderSeed: 35, Shuffle: true,
+			Attacks: []Attack{{Name: "drop", Phase: 8, By: 3}}},
+		{ID: "corpus-drop-phase10", N: 4, T: 1, Corrupt: []int{1}, Ops: distinctOps(4), OrderSeed: 36, Shuffle: true,
+			Attacks: []Attack{{Name: "drop", Phase: 10, By: 1}}},
 		{ID: "corpus-reveal-omit", N: 5, T: 2, Corrupt: []int{2, 4}, Ops: distinctOps(5), OrderSeed: 19, Shuffle: true,
 			Attacks: []Attack{{Name: "silent-from", Phase: 7, By: 2}, {Name: "rev-omit", Phase: 10, By: 4}}},
 	}
